@@ -7,9 +7,14 @@ package crypto
 //@ fileprops C33
 
 // The layer-by-layer verification itself is the SDK's VerifyRequestWithBufferN3 (external,
-// trusted to accept only when every layer carries valid signatures over its body, meta header
-// and the previous layer). What the node adds - and what is proved here - is when that
-// verification may be skipped, and that its verdict is passed on unchanged.
+// ASSUMED, not verified here). Read from its source (neofs-sdk-go crypto/proto.go): for a request
+// whose outermost meta header declares API version < 2.25 it accepts only when every layer
+// carries valid signatures over its meta header and the previous layer (and the innermost over
+// the body); for version >= 2.25 it verifies the OUTERMOST layer only - the meta signature,
+// which covers the nested meta headers, and the body signature - and looks at no inner
+// verification header (by design of that protocol version: the statement's "every layer" is the
+// pre-2.25 scheme). What the node adds - and what is proved here - is when that verification may
+// be skipped, and that its verdict is passed on unchanged.
 
 //@ ghost pred chainVerified() bool
 //@ ghost pred peerTrusted() bool
